@@ -80,19 +80,58 @@ def run_one(binp, src, td, timeout):
     return "ok" if p.returncode == 0 else "diag"
 
 
+def mixed(k):
+    """Nestings that spread the accepted depth over several routines at once: k levels of each."""
+    expr = "(" * k + "1" + " add (1" * k + ")" * k + ")" * k
+    body = "shout(" + "not " * k + "(" + expr + " na 0))\n"
+    s = {}
+    s["mixed_block_if_expr"] = "start\n" * k + "if to say (true) start\n" * k + body + "end\n" * (2 * k)
+    s["mixed_def_loop_expr"] = "".join("do g%d() start\n" % i for i in range(k)) + "make i get 0\n" + "jasi (i small pass 1) start\n" * k + body + "i get 1\n" + "end\n" * k + "return 1\n" + "end\n" * k
+    s["mixed_call_index_member"] = "do f(x) start return x end\nmake a get [[1]]\nshout(" + "f(" * k + "a" + "[0]" * 1 + ".len()" + ")" * k + ")"
+    # the accepted nest evaluated at every level of an unbounded recursion
+    s["rec_nest"] = "do f() start\n return " + "(" * k + "f()" + ")" * k + "\nend\nshout(f())"
+    # plain blocks evaluate nothing: the longest stretch between two stack probes the front end accepts
+    s["rec_nest_blocks"] = "do f() start\n" + "start\n" * (2 * k) + "return f()\n" + "end\n" * (2 * k) + "return 1\nend\nshout(f())"
+    return s
+
+
+def frontier(binp, gen, name, td, hi=4096):
+    """Largest n <= hi for which the front end still accepts gen(n)[name] (no 'Nesting too deep')."""
+    def accepted(n):
+        path = os.path.join(td, "f.ns")
+        with open(path, "w") as f:
+            f.write(gen(n)[name])
+        p = subprocess.run([binp, "f.ns"], cwd=td, capture_output=True, timeout=300)
+        return p.returncode >= 0 and "Nesting too deep" not in p.stdout.decode(errors="replace") and "overflowed its stack" not in p.stderr.decode(errors="replace")
+    if accepted(hi):
+        return hi
+    lo = 1
+    while hi - lo > 1:
+        mid = (lo + hi) // 2
+        if accepted(mid):
+            lo = mid
+        else:
+            hi = mid
+    return lo
+
+
 def run(tier):
     v = common.Verdict("C08", tier, "exploration")
     q = tier == "quick"
     m = tlc.run("stack/StackGuard.tla", "stack/StackGuard.cfg", workers=2, timeout=300, coverage=False)
     if m.rc != 0 or m.timed_out:
         raise common.ToolError("StackGuard failed: %s" % m.errors[:3])
+    af = tlc.run("stack/StackGuard.tla", "stack/StackGuardAsFound.cfg", workers=2, timeout=300, coverage=False)
+    if af.rc != 0 or not any(not (c["guarded"] or c["bounded"]) and "paren" in c["shapes"] for c in af.records):
+        raise common.ToolError("StackGuard (as found, no parser limit) does not report the syntactic cycles as unbounded: vacuous model")
     model = {}
     for c in m.records:
         for sh in c["shapes"]:
-            model[sh] = model.get(sh, True) and c["guarded"]
+            model[sh] = model.get(sh, True) and (c["guarded"] or c["bounded"])
     bins = {"debug": common.build_naija(False), "release": common.build_naija(True)}
     depths = [100, 1000, 10000] + ([] if q else [100000, 1000000])
     results = {}
+    frontiers = {}
     evaluations = 0
     with tempfile.TemporaryDirectory(prefix="c08_", dir=os.path.join(common.VERIF, "work")) as td:
         for prof, binp in bins.items():
@@ -107,6 +146,22 @@ def run(tier):
                     if r.startswith("NATIVE") or r in ("timeout", "PANIC"):
                         break
                 results[(name, prof)] = res
+                # the deepest nest the front end accepts: the worst case every later pass has to survive
+                fr = frontier(binp, syntactic, name, td)
+                r = run_one(binp, syntactic(fr)[name], td, 300)
+                evaluations += 1
+                res.append(("deepest-accepted:%d" % fr, r))
+                frontiers["%s/%s" % (name, prof)] = fr
+            for name in mixed(1):
+                fr = frontier(binp, mixed, name, td)
+                r = run_one(binp, mixed(fr)[name], td, 300)
+                evaluations += 1
+                results[(name, prof)] = [("deepest-accepted:%d" % fr, r)]
+                frontiers["%s/%s" % (name, prof)] = fr
+                if not name.startswith("rec_"):
+                    r2 = run_one(binp, mixed(100000)[name], td, 300)
+                    evaluations += 1
+                    results[(name, prof)].append((100000, r2))
             for name, src in RUNTIME.items():
                 r = run_one(binp, src, td, 120)
                 evaluations += 1
@@ -120,9 +175,10 @@ def run(tier):
                     results.setdefault((name, prof), []).append((n, r))
     notes = []
     for (name, prof), res in sorted(results.items()):
-        last_n, last = res[-1]
-        if last.startswith("NATIVE") or last == "PANIC":
-            v.finding("native:%s:%s" % (name, prof), "shape %s, %s build: the process dies natively at depth %s (%s); shallower depths: %s" % (name, prof, last_n, last, res[:-1]),
+        bad = [x for x in res if x[1].startswith("NATIVE") or x[1] == "PANIC"]
+        last_n, last = bad[0] if bad else res[-1]
+        if bad:
+            v.finding("native:%s:%s" % (name, prof), "shape %s, %s build: the process dies natively at depth %s (%s); all depths: %s" % (name, prof, last_n, last, res),
                       {"shape": name, "profile": prof, "depth": last_n, "result": last, "history": res})
         g = model.get(name)
         if g is True and (last.startswith("NATIVE")):
@@ -133,7 +189,7 @@ def run(tier):
     v.coverage = {"evaluations": evaluations, "distinct_nontrivial": len(results),
                   "rule": "every shape named by StackGuard.tla's cycles (plus runtime recursion variants) x {debug, release} x depths doubling until a crash; non-trivial = the deepest/unbounded instance of each (shape, build)",
                   "samples": [{"shape": "paren", "depth": 100, "source": syntactic(100)["paren"][:120] + "..."}, {"shape": "rec_arg", "source": RUNTIME["rec_arg"]}],
-                  "model_cycles": len(m.records), "model_states": m.distinct, "shapes": shapes, "depths": depths,
+                  "model_cycles": len(m.records), "deepest_accepted_nesting": frontiers, "as_found_model_unbounded_cycles": sum(1 for c in af.records if not (c["guarded"] or c["bounded"])), "model_states": m.distinct, "shapes": shapes, "depths": depths,
                   "results": {"%s/%s" % k: r for k, r in sorted(results.items())}, "model_vs_native_notes": notes, "exhaustive": False}
     v.assumptions = ["native stack use is a property of compiled code: the verdict is the exit status of the real binary on this machine's default 8 MiB stack", "depths are sampled by doubling, not exhaustive"]
     return v.finish()
